@@ -46,7 +46,7 @@ Spai0M(A) == [i \in Idx(A.n) |->
 Spai0Sweep(A, f, x) == VMul(ROne, Spai0M(A), ResQ(A, f, x), ROne, x, A.n)
 Spai0Apply(A, f)    == VMul(ROne, Spai0M(A), f, RZero, f, A.n)
 \* m_i minimises  sum_j (delta_ij - m a_ij)^2 :  m * sum_j a_ij^2 = a_ii
-Spai0OK(A, m) == \A i \in Idx(A.n) : REq(QMul(m[i], QRowSum(A, i, LAMBDA p : R(A.val[p] * A.val[p]))), R(At(A, i, i)))
+Spai0OK(A, m) == \A i \in Idx(A.n) : QEq(QMul(m[i], QRowSum(A, i, LAMBDA p : R(A.val[p] * A.val[p]))), R(At(A, i, i)))
 
 \* ------------------------------------------------------------ SPAI-1
 \* row i: I = columns of row i (storage order), J = sorted union of the columns of the rows in I,
@@ -119,8 +119,8 @@ ChebPolyOK(A, scale, d, c, degree, f, x0, xk) ==
                               ELSE QSub(QMul(R(2), QMul(QDiv(d, c), t[k - 1])), t[k - 2])
         W[k \in 0..degree] == IF k = 0 THEN r0
                               ELSE LET bv == Bv(W[k - 1]) IN [i \in Idx(n) |-> QSub(W[k - 1][i], QDiv(bv[i], d))]
-    IN  IF IsZero(c) THEN \A i \in Idx(n) : REq(rk[i], W[degree][i])
-        ELSE \A i \in Idx(n) : REq(QMul(rk[i], t[degree]), V[degree][i])
+    IN  IF IsZero(c) THEN \A i \in Idx(n) : QEq(rk[i], W[degree][i])
+        ELSE \A i \in Idx(n) : QEq(QMul(rk[i], t[degree]), V[degree][i])
 
 \* ------------------------------------------------------------ the sweep predicates
 \* x1 = x + M^-1 (f - A x), M given by its action v |-> M v
